@@ -139,7 +139,8 @@ def smaller_event(e):
 
 class C16(Prop):
     id = "C16"
-    coq_targets = ["theories/Properties/C16.vo"]
+    coq_targets = ["theories/Properties/C16.vo", "theories/Properties/System.vo"]
+    theorem_prefixes = ("C16_", "SYS_")
     check_vo = "theories/Check/C16Check.vo"
     check_module = "Moc.Check.C16Check"
     case_imports = ["Moc.Msg", "Moc.Handlers"]
